@@ -134,7 +134,7 @@ func runCase(t *testing.T) func(Case) pbt.Result {
 						return
 					}
 				case "post-sync", "post-entries":
-					if e.CloseRet && o.Err == nil && o.Step > closeReturnedStep(e) {
+					if o.AfterClose && o.Err == nil {
 						viol = fmt.Sprintf("%s issued at step %d after Close had returned reported success", o.Kind, o.Step)
 						return
 					}
